@@ -246,6 +246,11 @@ pub fn run(tier: &str, seed: u64, outdir: &str) {
         let n = r.below(9);
         lists.push(Value::Array((0..n).map(|_| if r.chance(1, 12) { json!(r.below(4) as i64 - 1) } else { json!(r.below(2)) }).collect()));
     }
+    // lengths around machine-word boundaries
+    for n in [31usize, 32, 33, 63, 64, 65, 127, 128, 129, 192, 256] {
+        lists.push(Value::Array((0..n).map(|i| json!(if i % 7 == 3 || i + 1 == n { 1 } else { 0 })).collect()));
+        lists.push(Value::Array((0..n).map(|_| json!(0)).collect()));
+    }
     for l in &lists {
         let mut d = ldoc.clone();
         d["revocationList"] = l.clone();
